@@ -194,6 +194,14 @@ def rnd_parts(rng):
             # (content, mode, encoding) tuples: only mode None - per-part mode *names* are not part of the
             # documented interface (prepare_data expects internal constants there)
             parts.append((c, None, rng.choice(['utf-8', None, 'latin1', 'cp1252'])))
+    if rng.random() < 0.12:
+        # a part that occurs twice, the second time next to a part of its own mode (they are merged): [x, y, x, z]
+        cls_a, cls_b = rng.sample(['digits', 'alnum', 'ascii'], 2)
+        x = content_of(rng, cls_a, rng.randint(1, 6))
+        parts = [x, content_of(rng, cls_b, rng.randint(1, 6)), x, content_of(rng, cls_a, rng.randint(1, 6))]
+        if rng.random() < 0.3:
+            parts.append(x)
+        return parts
     # degenerate-but-legal parts: an empty string / bytes part, the integer 0, a one-part list
     r = rng.random()
     if r < 0.12:
